@@ -91,6 +91,106 @@ Arguments T {A} c l x r.
 (* trees over Z keys with the usual order (used by the correspondence with the real redblack package) *)
 Definition zins := insert_all Z Z.ltb.
 
+(* ================================================================== Part 2: sector allocation in lib/comdoc *)
+(* Tables are lists of signed sector ids (SecID int32): secid_free = -1, secid_eoc = -2, secid_sat = -3, secid_msat = -4. *)
+Definition sget (t : list Z) (i : Z) : Z := nth (Z.to_nat i) t 0.
+Fixpoint set_nat {X} (n : nat) (v : X) (l : list X) : list X :=
+  match l, n with
+  | [], _ => []
+  | _ :: r, O => v :: r
+  | x :: r, S k => x :: set_nat k v r
+  end.
+Definition sset (t : list Z) (i v : Z) : list Z := set_nat (Z.to_nat i) v t.
+Definition in_range (t : list Z) (i : Z) : bool := (0 <=? i) && (i <? zlen t).
+
+(* the scan loop of makeFreeSectors: indices of free entries, in order, until count reaches zero *)
+Fixpoint scan_free (i : Z) (count : Z) (t : list Z) : list Z * Z :=
+  match t with
+  | [] => ([], count)
+  | j :: r =>
+      if mfs_skip j then scan_free (i + 1) count r
+      else if count - 1 =? 0 then ([i], 0)
+      else let '(l, c) := scan_free (i + 1) (count - 1) r in (i :: l, c)
+  end.
+(* makeFreeSectors(count, _) on one table: (free list, table after the call) *)
+Definition make_free (ss count : Z) (t : list Z) : list Z * list Z :=
+  if mfs_nothing count then ([], t) else
+  let '(found, rem) := scan_free 0 count t in
+  if rem =? 0 then (found, t) else
+  let per := mfs_per_block ss in
+  let blocks := mfs_need_blocks rem per in
+  (found ++ map (fun k => zlen t + Z.of_nat k) (seq 0 (Z.to_nat rem)),
+   t ++ repeat secid_free (Z.to_nat (blocks * per))).
+
+(* freeSectors: Go indexes sat[sector] first (panic when out of range), frees it, stops on a negative link *)
+Fixpoint free_chain (fuel : nat) (t : list Z) (s : Z) : result (list Z) :=
+  match fuel with
+  | O => Err 1
+  | S k =>
+      if negb (in_range t s) then Panic 1 else
+      let next := sget t s in
+      let t' := sset t s secid_free in
+      if free_stop next then Ok t' else free_chain k t' next
+  end.
+Definition free_sectors (t : list Z) (s : Z) : result (list Z) := free_chain (S (length t)) t s.
+
+(* the chaining loop shared by addStream, writeShortSAT and writeDirStream: t[fl[k]] = fl[k+1], last = end of chain;
+   with an empty list Go executes sat[SecIDEndOfChain] = ... and panics *)
+Fixpoint link (t : list Z) (fl : list Z) : list Z :=
+  match fl with
+  | [] => t
+  | a :: r => match r with [] => sset t a secid_eoc | b :: _ => link (sset t a b) r end
+  end.
+Definition first_of (fl : list Z) : Z := match fl with a :: _ => a | [] => secid_eoc end.
+
+(* addStream(contents, short=false): (first sector, SAT after) *)
+Definition add_stream_long (ss len : Z) (sat : list Z) : result (Z * list Z) :=
+  let '(fl, sat1) := make_free ss (stream_need_long len ss) sat in
+  match fl with [] => Panic 2 | _ => Ok (first_of fl, link sat1 fl) end.
+
+(* writeShortSector(i, _): walks the mini stream container to the big sector holding mini sector i, extends it when the
+   chain is too short, fails with a negative file offset when the root has no mini stream.  State: SAT, root start, root size *)
+Fixpoint walk_big (fuel : nat) (sat : list Z) (id idx : Z) : result (Z * Z) :=
+  if wss_walk_more idx then
+    match fuel with
+    | O => Err 1
+    | S k => if negb (in_range sat id) then Panic 3 else
+             let next := sget sat id in
+             if wss_walk_stop next then Ok (id, idx) else walk_big k sat next (idx - 1)
+    end
+  else Ok (id, idx).
+Fixpoint extend_from (sat : list Z) (id : Z) (fl : list Z) : result (list Z * Z) :=
+  match fl with
+  | [] => if in_range sat id then Ok (sset sat id secid_eoc, id) else Panic 4
+  | s :: r => if in_range sat id then extend_from (sset sat id s) s r else Panic 4
+  end.
+Definition E_NEGATIVE_OFFSET : Z := 7.
+Definition write_short_sector (ss mss : Z) (st : list Z * Z * Z) (i : Z) : result (list Z * Z * Z) :=
+  let '(sat, root_next, root_size) := st in
+  let idx := wss_big_index i mss ss in
+  let offset := i * mss - idx * ss in
+  r <- walk_big (S (Z.to_nat idx)) sat root_next idx ;;
+  let '(id, rest) := r in
+  r2 <- (if wss_extend rest then
+           let '(fl, sat1) := make_free ss rest sat in extend_from sat1 id fl
+         else Ok (sat, id)) ;;
+  let '(sat2, id2) := r2 in
+  if (if id2 <? 0 then -1 + offset else (if open_small_sector ss then 512 else ss) + id2 * ss + offset) <? 0 then Err E_NEGATIVE_OFFSET else
+  let len := wss_stream_length i mss in
+  Ok (sat2, root_next, if wss_grow_root len root_size then len else root_size).
+Fixpoint write_short_sectors (ss mss : Z) (st : list Z * Z * Z) (fl : list Z) : result (list Z * Z * Z) :=
+  match fl with
+  | [] => Ok st
+  | i :: r => st' <- write_short_sector ss mss st i ;; write_short_sectors ss mss st' r
+  end.
+(* addStream(contents, short=true): (first mini sector, SSAT after, SAT after, root size after) *)
+Definition add_stream_short (ss mss len : Z) (sat ssat : list Z) (root_next root_size : Z)
+  : result (Z * list Z * list Z * Z) :=
+  let '(fl, ssat1) := make_free ss (stream_need_short len mss) ssat in
+  st <- write_short_sectors ss mss (sat, root_next, root_size) fl ;;
+  let '(sat2, _, size2) := st in
+  match fl with [] => Panic 2 | _ => Ok (first_of fl, link ssat1 fl, sat2, size2) end.
+
 (* ================================================================== Part 3: MS-CFB validator *)
 (* Written from [MS-CFB]: header 2.2, FAT 2.3, mini FAT 2.4, DIFAT 2.5, directory entries 2.6.1-2.6.3, red-black tree and
    name order 2.6.4. Nothing here refers to relic's code or to Generated/C18_gen.v. *)
